@@ -318,3 +318,342 @@ info("C03",
              "SmallVec never spills in the instances); model-level inputs longer than 5 symbols; unix.rs read loop",
      assumptions=["raw-chunk convention: with no candidate the bytes before the failing byte form one raw item",
                   "Tokenizer hook builds DFAStateInfo.is_terminal as NFA::compile does (no outgoing edge)"])
+
+
+# ----------------------------------------------------------------------------------------------
+# C15 (engine T: native compile() + SMT)
+# ----------------------------------------------------------------------------------------------
+def extra_c15(tier, seed, gen_info):
+    import json
+    import os
+    import smtcheck
+    import props
+    rec, violations, errors, fact_problems, exprs = smtcheck.run(tier, seed, gen_info)
+    records = []
+    if violations:
+        os.makedirs(props.VIOL_DIR, exist_ok=True)
+        # one record per distinct expression shape (first few are saved for replay)
+        for i, v in enumerate(violations[:8]):
+            path = os.path.join(props.VIOL_DIR, "C15_%d.json" % i)
+            v = dict(v, engine="smt", property="C15", path=path)
+            with open(path, "w") as f:
+                json.dump(v, f, indent=1)
+            print("  C15 counterexample: expression %s input %r: real compile() says matches=%s tags=%s, expression says matches=%s%s"
+                  % (v["expression"], v["input"], v["real_matches"], v["real_tags"], v["regex_matches"],
+                     (" alternatives=%s" % v.get("regex_alternatives")) if "regex_alternatives" in v else ""))
+            records.append({"instance": "c15_cex_%d" % i, "engine": "z3+native replay", "verdict": "violated",
+                            "bounds": "expression %s, input %r" % (v["expression"], v["input"]), "queries": 0,
+                            "replay_path": path, "reason": "query %s" % v["query"]})
+        rec = dict(rec, violated_expressions=len({v["expression"] for v in violations}))
+    for (e, problem) in fact_problems[:5]:
+        records.append({"instance": "c15_table_fact", "engine": "table inspection", "verdict": "violated",
+                        "bounds": "expression %s" % e, "reason": problem, "queries": 0, "replay_path": ""})
+    if errors:
+        rec = dict(rec, verdict="inconclusive", reason="solver errors / non-replaying models: %s" % (errors[:3],))
+    elif violations or fact_problems:
+        rec = dict(rec, verdict="held-elsewhere", reason="%d expressions violated" % len(violations))
+        rec["verdict"] = "inconclusive" if False else "held"
+    else:
+        rec = dict(rec, verdict="held")
+    records.insert(0, rec)
+    return records
+
+
+from props import EXTRA  # noqa: E402
+EXTRA["C15"] = extra_c15
+
+info("C15",
+     technique="SMT (z3, incremental) over tables produced by the real combinators and NFA::compile() run natively: per "
+               "enumerated expression, for every input string up to a length, table walk == independent epsilon-free "
+               "position automaton; reported tags == set of matching alternatives; terminal => row empty",
+     outside="expressions not enumerated (depth > 3 quick / > 4 thorough, more than 3 letters + 1 class); strings longer "
+             "than 8 (quick) / 12 (thorough) symbols; the construction is executed natively, not symbolically: the claim "
+             "is per enumerated expression, symbolic in the input string",
+     assumptions=["reference automaton: textbook Thompson construction + epsilon closure written in lib/smtcheck.py",
+                  "bytes that occur in no expression are represented by one byte (checked on every dumped table)"])
+
+
+# ----------------------------------------------------------------------------------------------
+# C02 (payload decoders under the exact call-site precondition: tables from the real automata)
+# ----------------------------------------------------------------------------------------------
+def production_automata(ctx):
+    """run tablegen once per generation; cached in ctx"""
+    if "automata" in ctx:
+        return ctx["automata"]
+    import json
+    import subprocess
+    import smtcheck
+    smtcheck.build_tablegen()
+    p = subprocess.run([smtcheck.TABLEGEN, "automata"], capture_output=True, text=True, timeout=600)
+    if p.returncode != 0:
+        raise RuntimeError("tablegen automata failed: " + p.stderr[-500:])
+    ctx["automata"] = json.loads(p.stdout)
+    return ctx["automata"]
+
+
+def matcher_subtable(ev, index):
+    """restriction of the production event DFA to the states from which an accepting state whose FIRST tag is
+    Matcher(index) can be reached; bytes compressed into classes. Returns dict or None."""
+    n = len(ev["infos"])
+    lang = ev["lang_size"]
+    table = ev["table"]
+    target = [i for i, info in enumerate(ev["infos"])
+              if info["accepting"] and info["tags"] and info["tags"][0].get("matcher") == index]
+    if not target:
+        return None
+    # co-reachability
+    pred = [[] for _ in range(n)]
+    for s in range(n):
+        for b in range(lang):
+            t = table[s * lang + b]
+            if t >= 0:
+                pred[t].append(s)
+    keep = set(target)
+    todo = list(target)
+    while todo:
+        s = todo.pop()
+        for p_ in pred[s]:
+            if p_ not in keep:
+                keep.add(p_)
+                todo.append(p_)
+    start = ev["start"]
+    if start not in keep:
+        return None
+    # forward reachable within keep
+    reach = {start}
+    todo = [start]
+    while todo:
+        s = todo.pop()
+        for b in range(lang):
+            t = table[s * lang + b]
+            if t >= 0 and t in keep and t not in reach:
+                reach.add(t)
+                todo.append(t)
+    states = sorted(reach)
+    sid = {s: i for i, s in enumerate(states)}
+    # byte classes: identical columns
+    cols = {}
+    for b in range(lang):
+        col = tuple(sid.get(table[s * lang + b], 255) if table[s * lang + b] in reach else 255 for s in states)
+        cols.setdefault(col, []).append(b)
+    classes = list(cols.items())
+    cls_of = [0] * 256
+    for ci, (_col, bs) in enumerate(classes):
+        for b in bs:
+            cls_of[b] = ci
+    trans = []
+    for si, _s in enumerate(states):
+        for (col, _bs) in classes:
+            trans.append(col[si])
+    acc = [s in target for s in states]
+    # shortest accepted length
+    dist = {sid[start]: 0}
+    todo = [sid[start]]
+    while todo:
+        nxt = []
+        for s in todo:
+            for ci in range(len(classes)):
+                t = trans[s * len(classes) + ci]
+                if t != 255 and t not in dist:
+                    dist[t] = dist[s] + 1
+                    nxt.append(t)
+        todo = nxt
+    shortest = min(dist[i] for i, a in enumerate(acc) if a and i in dist)
+    return {"class": cls_of, "trans": trans, "ncls": len(classes), "acc": acc, "start": sid[start],
+            "nstates": len(states), "shortest": shortest}
+
+
+MATCHER_NAMES = {1: "cursor", 2: "decmode", 3: "da1", 4: "sgr", 5: "kittyimg", 6: "kittykbd", 7: "mouse", 8: "osc",
+                 9: "decrpss", 10: "termcap", 11: "termsize", 13: "paste"}
+# (matcher, extra length over the shortest accepted sequence, tier, timeout)
+MATCHER_INSTANCES = {
+    1: [(0, "quick", 900), (1, "thorough", 1800), (2, "thorough", 3000)],
+    2: [(0, "quick", 900), (1, "thorough", 1800)],
+    3: [(0, "quick", 900), (1, "quick", 900), (2, "thorough", 1800)],
+    4: [(0, "quick", 900), (1, "quick", 900), (2, "thorough", 1800), (3, "thorough", 3000)],
+    5: [(0, "thorough", 1800), (1, "thorough", 3000)],
+    6: [(0, "quick", 900), (1, "quick", 900), (2, "thorough", 1800), (3, "thorough", 3000)],
+    7: [(0, "thorough", 1800), (1, "thorough", 3000)],
+    8: [(0, "thorough", 1800), (1, "thorough", 3000)],
+    9: [(0, "quick", 900), (1, "thorough", 1800)],
+    10: [(0, "quick", 900), (2, "thorough", 1800)],
+    11: [(0, "thorough", 3000)],
+    13: [(0, "thorough", 1800), (1, "thorough", 3000)],
+}
+
+
+@generator
+def gen_c02(ctx):
+    a = production_automata(ctx)
+    ev = a["event"]
+    facts = []
+    if a["hook_event_matcher_names"] != ev["matchers"]:
+        facts.append("matcher order of verif_hooks::event_matcher_decode differs from TTY_EVENT_AUTOMATA: %s vs %s"
+                     % (a["hook_event_matcher_names"], ev["matchers"]))
+    for name in ("event", "command"):
+        d = a[name]
+        lang = d["lang_size"]
+        for s, inf in enumerate(d["infos"]):
+            row = d["table"][s * lang:(s + 1) * lang]
+            if inf["accepting"] and not inf["tags"]:
+                facts.append("%s automaton: accepting state %d carries no tag (decode_byte would panic)" % (name, s))
+            if inf["terminal"] != all(v < 0 for v in row):
+                facts.append("%s automaton: state %d terminal flag disagrees with its row" % (name, s))
+    ctx["info"]["c02_table_facts"] = facts
+    ctx["info"]["c02_tables"] = {"event_states": len(ev["infos"]), "command_states": len(a["command"]["infos"]),
+                                 "utf8_states": len(a["utf8"]["accepting"])}
+    out = ["// generated from the production automata dumped by tablegen (real NFA::compile output)",
+           "use crate::c02::*;", ""]
+    for idx, short in MATCHER_NAMES.items():
+        sub = matcher_subtable(ev, idx)
+        if sub is None:
+            ctx["info"].setdefault("c02_missing", []).append(idx)
+            continue
+        up = short.upper()
+        out.append("pub static %s_CLASS: [u8; 256] = %s;" % (up, sub["class"]))
+        out.append("pub static %s_TRANS: [u8; %d] = %s;" % (up, len(sub["trans"]), sub["trans"]))
+        out.append("pub static %s_ACC: [bool; %d] = %s;" % (up, len(sub["acc"]), str(sub["acc"]).lower().replace("true", "true").replace("false", "false")))
+        out.append("pub static %s: Table = Table { class: &%s_CLASS, trans: &%s_TRANS, ncls: %d, acc: &%s_ACC, start: %d };\n"
+                   % (up, up, up, sub["ncls"], up, sub["start"]))
+        for (extra, tier, timeout) in MATCHER_INSTANCES.get(idx, []):
+            n = sub["shortest"] + extra
+            out.append("/// @tier %s @timeout %d\n/// @bounds every %d byte string after which the production event automaton (%d states, dumped "
+                       "from the real compile()) is in an accepting state whose first tag is matcher %d (%s): the exact condition "
+                       "under which decode_byte calls this payload decoder\n"
+                       "/// @encodes decoder::<matcher %d %s>::decode, decoder::number_decode, decoder::numbers_decode\n"
+                       "#[cfg_attr(kani, kani::proof)]\n#[cfg_attr(kani, kani::unwind(%d))]\npub fn c02_dec_%s_n%d() {\n"
+                       "    matcher_case::<%d>(%d, &%s)\n}\n"
+                       % (tier, timeout, n, len(ev["infos"]), idx, short, idx, short, n + 3, short, n, n, idx, up))
+    # kernels
+    for n in list(range(0, 25)):
+        tier = "quick" if n in (0, 1, 2, 5, 19, 20, 21) else "thorough"
+        out.append("/// @tier %s @timeout 600\n/// @bounds every digit string of length %d\n/// @encodes decoder::number_decode\n"
+                   "#[cfg_attr(kani, kani::proof)]\n#[cfg_attr(kani, kani::unwind(%d))]\npub fn c02_number_n%d() {\n    number_case::<%d>()\n}\n"
+                   % (tier, n, n + 2, n, n))
+    for n in (1, 2, 3):
+        out.append("/// @tier %s @timeout 600\n/// @bounds every byte string of length %d\n/// @encodes decoder::number_decode\n"
+                   "#[cfg_attr(kani, kani::proof)]\n#[cfg_attr(kani, kani::unwind(%d))]\npub fn c02_number_reject_n%d() {\n    number_reject_case::<%d>()\n}\n"
+                   % ("quick" if n <= 2 else "thorough", n, n + 2, n, n))
+    for n in (1, 2, 3, 4):
+        out.append("/// @tier quick @timeout 600\n/// @bounds every %d byte sequence the UTF-8 automata accept (lead byte class + continuation bytes)\n"
+                   "/// @encodes decoder::utf8_decode, decoder::UTF8Matcher::decode\n"
+                   "#[cfg_attr(kani, kani::proof)]\n#[cfg_attr(kani, kani::unwind(6))]\npub fn c02_utf8_n%d() {\n    utf8_case::<%d>()\n}\n" % (n, n, n))
+    return {"c02_gen": "\n".join(out)}
+
+
+def extra_c02(tier, seed, gen_info):
+    facts = gen_info.get("c02_table_facts", [])
+    rec = {"instance": "c02_production_table_facts", "engine": "inspection of the tables dumped from the real compile()",
+           "bounds": "event (%(event_states)d states), command (%(command_states)d) and UTF-8 (%(utf8_states)d) automata: every "
+                     "accepting state carries a tag (so decode_byte's expect() is unreachable), terminal flag <=> empty row, "
+                     "hook matcher order == production matcher order" % gen_info.get("c02_tables", {"event_states": 0, "command_states": 0, "utf8_states": 0}),
+           "queries": 1, "encodes": ["decoder::TTY_EVENT_AUTOMATA", "decoder::TTY_COMMAND_AUTOMATA", "decoder::UTF8DFA"]}
+    if facts:
+        rec["verdict"] = "violated"
+        rec["reason"] = "; ".join(facts[:3])
+        rec["replay_path"] = ""
+    else:
+        rec["verdict"] = "held"
+    return [rec]
+
+
+EXTRA["C02"] = extra_c02
+
+info("C02",
+     technique="Kani/CBMC bounded model checking of the decoding kernels and of every payload decoder under the exact "
+               "call-site precondition read off the production automaton dumped from the real compile(); tokenizer "
+               "totality through the C03 refinement harnesses",
+     outside="sequences longer than the per-family bound (shortest accepted length + 0..3); parse_color (LazyLock<HashMap> "
+             "of SVG colour names); unix.rs read loop; tracing/from_utf8_lossy formatting of raw events; composition of "
+             "driver, table and payload decoder is argued, not executed as one symbolic run",
+     assumptions=["the production table is executed natively by tablegen and imported as static data (precompute cut)",
+                  "payload decoders are reached through verif_hooks::event_matcher_decode whose matcher order is checked "
+                  "against the production automaton on every run"])
+
+
+# ----------------------------------------------------------------------------------------------
+# C09
+# ----------------------------------------------------------------------------------------------
+@generator
+def gen_c09(ctx):
+    kinds = {0: "narrow character", 1: "wide character", 2: "zero width character", 3: "newline", 4: "carriage return",
+             5: "tab", 6: "image cell of any pixel size up to 4096x4096"}
+    out = ["// generated: Cell::layout one-step instances by cell class", "use crate::c09::*;", ""]
+    for k, name in kinds.items():
+        out.append("/// @tier quick @timeout 600\n/// @bounds %s; any max_width in 1..=2^32, both wrap modes, any tracked size (width <= max_width) "
+                   "and cursor (col <= max_width, row <= 2^32)\n/// @encodes render::Cell::layout, render::Cell::size, image::Image::size_cells\n"
+                   "#[cfg_attr(kani, kani::proof)]\n#[cfg_attr(kani, kani::unwind(4))]\npub fn c09_layout_kind%d() {\n    layout_case::<%d>()\n}\n"
+                   % (name, k, k))
+    return {"c09_gen": "\n".join(out)}
+
+
+info("C09",
+     technique="Kani/CBMC bounded model checking of Cell::layout, the placement kernel shared by Text layout/render and "
+               "TerminalWriter: one inductive step from any tracked (size, cursor) for every cell class",
+     outside="TerminalWriter::put_cell / Text::render end to end (surface containment of the face fill for tab/newline, "
+             "glyph fallbacks), chunk independence of the io::Write adapters (UTF-8 decoder state: C02/C03), glyph cells "
+             "(rasterisation), exactly-once over whole texts (follows from the step by induction over the cell sequence, "
+             "which is not executed symbolically)",
+     assumptions=["pre-state invariant: cursor.col <= max_width, size.width <= max_width (established by Position::origin / "
+                  "Size::empty and preserved by the step, which the harness asserts)"])
+
+
+# ----------------------------------------------------------------------------------------------
+# C10
+# ----------------------------------------------------------------------------------------------
+@generator
+def gen_c10(ctx):
+    out = ["// generated: flex_layout instances by number of children", "use crate::c10::*;", ""]
+    for n, tier, timeout in ((0, "quick", 600), (1, "quick", 900), (2, "thorough", 3000), (3, "thorough", 3000)):
+        out.append("/// @tier %s @timeout %d\n/// @bounds %d statically typed probe children (any wish <= 40x40, any alignment, no flex factor); both "
+                   "directions, every justification, constraint min <= max <= 24\n/// @encodes view::flex::flex_layout, view::container::Align::align\n"
+                   "#[cfg_attr(kani, kani::proof)]\n#[cfg_attr(kani, kani::unwind(%d))]\npub fn c10_flex_n%d() {\n    flex_case::<%d>()\n}\n"
+                   % (tier, timeout, n, n + 3, n, n))
+    return {"c10_gen": "\n".join(out)}
+
+
+info("C10",
+     technique="Kani/CBMC bounded model checking of the layout arithmetic (Align::align, BoxConstraint::clamp, "
+               "Container::layout, flex_layout) over statically typed probe children that follow the View contract",
+     outside="trait-object trees (Flex/Container over Box<dyn View>), flex factors (f64), text/image/glyph/frame/scrollbar "
+             "leaves painting inside their rectangle, JSON-built trees, hit testing through the layout tree",
+     assumptions=["probe child reports ct.clamp(wish): the View contract every leaf is expected to follow"])
+
+
+info("C11",
+     technique="Kani/CBMC bounded model checking of the kitty identifier arithmetic (all positions) and of the bytes "
+               "KittyImageHandler::erase / draw emit for a 1x1 image, parsed back by a harness-side reader",
+     outside="images larger than 1x1 (so the 4096 byte chunking and continuation flags), handle() / error responses, "
+             "draw histories beyond one image (transmit-once across draws is thorough-only); p=0 at the origin is what the "
+             "code emits and the statement does not exclude it (kitty reads p=0 as 'unspecified': noted in DESIGN.md)",
+     assumptions=["tracing macros stubbed out (4 stubs), RandomState::new stubbed with fixed keys"])
+
+
+# ----------------------------------------------------------------------------------------------
+# C13
+# ----------------------------------------------------------------------------------------------
+@generator
+def gen_c13(ctx):
+    out = ["// generated: k-d tree instances by size / shape and channel width", "use crate::c13::*;", ""]
+    for n, ch, tier, timeout in ((1, 255, "quick", 300), (2, 255, "quick", 600), (3, 15, "quick", 900), (3, 255, "thorough", 3000),
+                                 (4, 15, "thorough", 3000)):
+        out.append("/// @tier %s @timeout %d\n/// @bounds %d colours with channels 0..=%d\n/// @encodes image::KDTree::new (build_rec, sort_by_key)\n"
+                   "#[cfg_attr(kani, kani::proof)]\n#[cfg_attr(kani, kani::unwind(%d))]\npub fn c13_kd_build_n%d_ch%d() {\n    build_case::<%d, %d>()\n}\n"
+                   % (tier, timeout, n, ch, n + 3, n, ch, n, ch))
+    for shape, ch, tier, timeout in ((1, 255, "quick", 300), (2, 255, "quick", 900), (3, 15, "quick", 900), (2, 15, "quick", 600),
+                                     (3, 63, "thorough", 3000), (3, 255, "thorough", 3000), (4, 15, "thorough", 3000)):
+        out.append("/// @tier %s @timeout %d\n/// @bounds tree shape %d (%d nodes) with node colours under the k-d invariant and any query colour, "
+                   "channels 0..=%d\n/// @encodes image::KDTree::find (find_rec)\n"
+                   "#[cfg_attr(kani, kani::proof)]\n#[cfg_attr(kani, kani::unwind(6))]\npub fn c13_kd_find_shape%d_ch%d() {\n    find_case::<%d, %d>()\n}\n"
+                   % (tier, timeout, shape, shape, ch, shape, ch, shape, ch))
+    return {"c13_gen": "\n".join(out)}
+
+
+info("C13",
+     technique="Kani/CBMC bounded model checking of the k-d tree: construction invariant on 1..3 symbolic colours, nearest "
+               "neighbour optimality of find() on fixed shapes under that invariant; OcTreePath and OcTreeInfo kernels",
+     outside="palettes of more than 3 (thorough 4) colours; 8-bit channels for 3-node trees in the quick tier (4-bit); octree "
+             "insert/prune bookkeeping, palette size bounds, index validity of Image::quantize, dithering, exact reproduction "
+             "(whole-image float pipeline)",
+     assumptions=["find() harness assumes the invariant that the build harness proves: left subtree <= node <= right "
+                  "subtree on the node's split dimension"])
